@@ -16,9 +16,9 @@
    Every u32 operation goes through add32/sub32/shl32: with [ck = true] (the harness' "checked"
    profile: overflow-checks = on, what a debug build does) an overflow is [Panic]; with [ck = false]
    (release profile) the result wraps modulo 2^32.  The functions suffixed [_old] are the code before
-   the "fix:" commits (repo-patches/01 for the encoder estimator; /repo commit 009e680 for the
-   lzma2_reader.rs get_dict_size clamp and repo-patches/02 for decode_props); they are kept so that
-   the refutations stay checked. *)
+   the "fix:" commits in /repo (813fe55 for the encoder estimator; 009e680 for the
+   lzma2_reader.rs get_dict_size clamp; 525e235 for decode_props); they are kept so that the
+   refutations stay checked. *)
 From LzVerif Require Export Base.Bytes.
 
 Definition U32 : Z := 4294967296.
@@ -50,8 +50,8 @@ Record enc_params := {
 Definition DICT_SIZE_MIN : Z := 4096.
 Definition DICT_SIZE_MAX : Z := 4294967280.              (* u32::MAX & !15: the decoders' maximum *)
 Definition ENC_DICT_SIZE_MAX : Z := 805306368.           (* 768 MiB: the encoder's maximum (XZ for Java, and
-                                                            what LZMAWriter/LZMA2Writer/XZWriter accept after
-                                                            repo-patches/04) *)
+                                                            what LZMAWriter/LZMA2Writer/XZWriter accept since
+                                                            /repo 679bcf7) *)
 Definition COMPRESSED_SIZE_MAX : Z := 65536.
 Definition MATCH_LEN_MAX : Z := 273.
 Definition OPTS : Z := 4096.
